@@ -86,7 +86,10 @@ RtSteps == {[op |-> "rt", S |-> S] : S \in RtSets}
 (* privileges of a live session's account changed by an administrator: new set S, old set {} or the complement *)
 UpdSets == {{i} : i \in Priv} \cup {{}, Priv, Defined, Priv \ {40}, Defined \ {2}}
            \cup {Rand(n) : n \in 1..(IF Thorough /\ Mode # "all" THEN 300 ELSE 12)}
-UpdSteps == UNION {{[op |-> "upd", via |-> v, S |-> S, old |-> o] : v \in {349, 353}, o \in {{}, Priv \ S}} : S \in UpdSets}
+UpdSteps == UNION {{[op |-> "upd", via |-> v, S |-> S, old |-> o, near |-> "none", B |-> {}] : v \in {349, 353}, o \in {{}, Priv \ S}} : S \in UpdSets}
+            \cup  \* with a bystander account whose login is a near variant of the edited one (its set: the complement)
+            UNION {{[op |-> "upd", via |-> v, S |-> S, old |-> {}, near |-> nr, B |-> Priv \ S] : v \in {349, 353}, nr \in {"case", "prefix", "suffix"}}
+                     : S \in {{}, {23}, {40}, Defined, {(Seed * 19 + 7) % 41}}}
 
 (* an account with several live sessions is edited; then one of its sessions is the target of a disconnect request /
    creates an account *)
@@ -94,11 +97,14 @@ MultiNK == {<<1, 1>>, <<2, 1>>, <<2, 2>>, <<3, 2>>, <<3, 3>>}
 RevBits == {22, 40, 0, (Seed * 17 + 3) % 64} \cup (IF Thorough /\ Mode # "all" THEN Priv ELSE {})
 MultiSteps ==
   {[op |-> "multi", kind |-> "kick", edit |-> ed, n |-> nk[1], k |-> nk[2], a0 |-> aa[1], a1 |-> aa[2], ban |-> b,
-    via |-> 350, want |-> {}] :
+    via |-> 350, want |-> {}, near |-> "none"] :
      ed \in {349, 353}, nk \in MultiNK, aa \in {<<{}, {23}>>, <<Priv \ {23}, Priv>>, <<{23}, {23, 9}>>}, b \in {0, 1, 2}}
+  \cup  \* the edit takes 23 away from the account; the target is the session of a protected near-namesake account
+  {[op |-> "multi", kind |-> "kick", edit |-> ed, n |-> 1, k |-> 1, a0 |-> {23}, a1 |-> {}, ban |-> b,
+    via |-> 350, want |-> {}, near |-> nr] : ed \in {349, 353}, b \in {0, 1, 2}, nr \in {"case", "prefix", "suffix"}}
   \cup
   {[op |-> "multi", kind |-> "create", edit |-> ed, n |-> nk[1], k |-> nk[2], a0 |-> {14, p}, a1 |-> {14} \ ({p} \ {14}), ban |-> 0,
-    via |-> v, want |-> {p}] :
+    via |-> v, want |-> {p}, near |-> "none"] :
      ed \in {349, 353}, nk \in MultiNK, p \in RevBits \ {14}, v \in {349, 350}}
 
 (* an account editor opens / lists / re-saves an account it does not dominate *)
@@ -106,7 +112,29 @@ OpenSets == {{i} : i \in Priv} \cup {Priv, Defined, {}, Priv \ {16}, Priv \ {17}
             \cup {Rand(n + 50) : n \in 1..(IF Thorough /\ Mode # "all" THEN 300 ELSE 10)}
 OpenSteps == {[op |-> "open", S |-> S, racc |-> ra] : S \in OpenSets, ra \in {{16}, {16, 17}, {16, 17, 2, 9, 40}}}
 
-FirstSteps == (IF On("c05") THEN HandleSteps ELSE {}) \cup (IF On("c06") THEN CreateSteps \cup KickSteps \cup MultiSteps ELSE {})
+(* multi-entry Update User batches *)
+E(kind, login, set) == [kind |-> kind, login |-> login, set |-> set]
+BatchBits == {2, 40, 22, (Seed * 23 + 11) % 64} \cup (IF Thorough /\ Mode # "all" THEN Priv ELSE {})
+Adm == {14, 15, 17}
+BatchSteps ==
+  UNION {
+    LET acc == Adm \cup {b, 9} IN
+    {[op |-> "batch", acc |-> acc, entries |-> es] : es \in {
+       << E("modself", "req", acc \ {b}), E("create", "n1", {b}) >>,                 \* drops b, then grants b
+       << E("modself", "req", acc \ {b}), E("create", "n1", {9}) >>,                 \* ... grants something it kept
+       << E("modself", "req", acc \ {b}), E("create", "n1", {}), E("create", "n2", {b, 9}) >>,
+       << E("modself", "req", acc \ {14}), E("create", "n1", {}) >>,                  \* drops Create User itself
+       << E("create", "n1", {b}), E("modself", "req", acc \ {b}) >>,                 \* grants b, then drops it
+       << E("create", "n1", {b}), E("create", "n2", {b, 63 - (b % 2)}) >>,            \* second one beyond the creator
+       << E("create", "n1", {b}), E("create", "n2", {9}) >>,
+       << E("delete", "spare", {}), E("create", "n1", {b}) >>,
+       << E("delete", "spare", {}), E("create", "n1", {b, 33}) >>,
+       << E("renself", "req", acc), E("create", "n1", {b}) >>,
+       << E("renself", "req", acc \ {b}), E("create", "n1", {b}) >>,                 \* renamed and reduced in one entry
+       << E("renself", "req", acc), E("create", "n1", {b, 33}) >>
+    }} : b \in BatchBits \ (Adm \cup {9, 33, 62, 63})}
+
+FirstSteps == (IF On("c05") THEN HandleSteps ELSE {}) \cup (IF On("c06") THEN CreateSteps \cup KickSteps \cup MultiSteps \cup BatchSteps ELSE {})
               \cup (IF On("c16") THEN RtSteps \cup UpdSteps \cup OpenSteps ELSE {})
 
 (* second step (model check only): the account just created creates another one *)
@@ -126,7 +154,7 @@ Spec == MCInit /\ [][Next]_mcvars
 (* ---- invariants of the instance -------------------------------------------- *)
 TablesOK == ReqMatchesGov /\ KeysUnique /\ Cardinality(Types) = 43
             /\ Cardinality(AllNames) = 40 /\ \A i \in Defined : Num(Name[i]) = i
-GuardOK == \A i \in DOMAIN hist : hist[i].op \in {"handle", "create", "kick", "rt", "upd", "multi", "open"} /\ Guard(hist[i])
+GuardOK == \A i \in DOMAIN hist : hist[i].op \in {"handle", "create", "kick", "rt", "upd", "multi", "open", "batch"} /\ Guard(hist[i])
 (* chains: what the second account holds, the first creator held *)
 NoChainAmplification ==
   ("newacct2" \in DOMAIN accts) => accts["newacct2"] \subseteq cap["newacct"]
@@ -137,7 +165,7 @@ Script(s) == IF s.op = "rt"
              ELSE IF s.op = "open"
                THEN [op |-> "open", S |-> s.S, racc |-> s.racc, bytes |-> ToBytes(s.S), rbytes |-> ToBytes(s.racc)]
              ELSE IF s.op = "upd"
-               THEN [op |-> "upd", via |-> s.via, S |-> s.S, old |-> s.old, bytes |-> ToBytes(s.S)]
+               THEN [op |-> "upd", via |-> s.via, S |-> s.S, old |-> s.old, bytes |-> ToBytes(s.S), near |-> s.near, B |-> s.B]
                ELSE s
 Emit == (Len(hist') = 1) => PrintT("B " \o ToJson(Script(hist'[1])))
 =============================================================================
